@@ -151,7 +151,9 @@ def tlc(module, cfg_text, workers=None, timeout=600, extra_files=None, args=None
     with open(os.path.join(d, module + '.cfg'), 'w') as fh:
         fh.write(cfg_text)
     w = str(workers or 1)
-    java = ['java', '-XX:+UseParallelGC', '-Xss64m']
+    java = ['java', '-XX:+UseParallelGC', '-XX:ParallelGCThreads=2', '-XX:CICompilerCount=2', '-XX:TieredStopAtLevel=1', '-Xss64m']
+    if (workers or 1) > 2:
+        java = ['java', '-XX:+UseParallelGC', '-Xss64m']
     if heap:
         java.append('-Xmx' + heap)
     if dfs:
@@ -459,14 +461,57 @@ def validate_trace(trace_module, trace_file, cfg_text=None, timeout=600, extra_f
         except ValueError:
             res.bad_line = None
         res.last_state = {k: v for k, v in last.items() if not k.startswith('_')}
-    elif res.ok:
-        # all lines must have been consumed
-        m = re.search(r'TRACE_CONSUMED (\d+) OF (\d+)', res.out)
-        if not m:
-            res.error = 'trace spec did not report consumption'
-        elif m.group(1) != m.group(2):
-            res.error = 'trace not fully consumed: %s of %s' % (m.group(1), m.group(2))
     return res
+
+
+def validate_runs(trace_module, trace_file, max_violations=12, timeout=900, reset_ev='Reset'):
+    """Validate a concatenation of runs. When a run violates an invariant it is recorded and removed,
+    and validation resumes so that every run is judged. Returns (violations, total TlcResult stats).
+    A violation is a dict {bad, line, event, run (the Reset event of the run), window}."""
+    violations = []
+    stats = {'distinct': 0, 'generated': 0, 'wall': 0.0, 'runs': 0}
+    cur = trace_file
+    tmpfiles = []
+    try:
+        for it in range(max_violations + 1):
+            res = validate_trace(trace_module, cur, timeout=timeout)
+            stats['distinct'] += res.distinct
+            stats['generated'] += res.generated
+            stats['wall'] += res.wall
+            if res.error:
+                raise ToolFailure('trace validation failed: %s\n%s' % (res.error, res.out[-1500:]))
+            if not res.violated:
+                break
+            if res.violated == 'postcondition' or not res.bad_line:
+                raise ToolFailure('trace not consumed / unparsable counterexample:\n' + res.out[-1500:])
+            lines = open(cur).read().splitlines()
+            k = res.bad_line - 1
+            lo = k
+            while lo > 0 and json.loads(lines[lo]).get('ev') != reset_ev:
+                lo -= 1
+            hi = k + 1
+            while hi < len(lines) and json.loads(lines[hi]).get('ev') != reset_ev:
+                hi += 1
+            bad = (res.last_state.get('bad') or '').strip('"')
+            violations.append({'bad': bad, 'line': res.bad_line, 'event': json.loads(lines[k]),
+                               'run': json.loads(lines[lo]), 'window': [json.loads(x) for x in lines[max(lo, k - 12):k + 1]]})
+            if len(violations) >= max_violations:
+                break
+            rest = lines[:lo] + lines[hi:]
+            if not rest:
+                break
+            fd, cur2 = tempfile.mkstemp(prefix='trace.', suffix='.ndjson', dir=os.path.join(BUILD, 'tlc'))
+            with os.fdopen(fd, 'w') as fh:
+                fh.write('\n'.join(rest) + '\n')
+            tmpfiles.append(cur2)
+            cur = cur2
+    finally:
+        for f in tmpfiles:
+            try:
+                os.remove(f)
+            except OSError:
+                pass
+    return violations, stats
 
 
 def read_ndjson(path):
